@@ -8,7 +8,7 @@
    changes, and the call succeeds whenever the annotation exists. *)
 From Stam Require Import Base.Tac Model.Offset Model.Store Model.StoreObs Spec.StoreSpec
      Proofs.StoreScan Proofs.StoreInv Proofs.StoreDataDef Proofs.StoreRemove Proofs.StoreRemove2
-     Proofs.StoreRemove3 Proofs.StoreData Proofs.StoreExact Proofs.StoreExactData Proofs.StoreSets Proofs.StoreExactKey.
+     Proofs.StoreRemove3 Proofs.StoreData Proofs.StoreExact Proofs.StoreExactData Proofs.StoreSets Proofs.StoreExactKey Proofs.StoreSuccess.
 
 Theorem C02_nothing_dangles : forall ops,
   let s := run ops in ann_refs_ok s /\ item_refs_ok s /\ data_ok s.
@@ -107,6 +107,22 @@ Theorem C02_remove_key_exact : forall ops dr kr strict d ds k tok,
   /\ (forall y a', get_ann s' y = Some a' -> exists a, get_ann s y = Some a /\ a' = stripk (s_key_data ds k) d a).
 Proof.
   intros ops dr kr strict d ds k tok Hok s. apply (rm_key_exact s dr kr strict d ds k tok (reachable_Good ops) (reachable_SetsInv ops Hok)).
+Qed.
+
+(* "succeeds whenever the item exists": every removal reports Ok for a request naming a live item *)
+Theorem C02_removals_succeed : forall ops,
+  let s := run ops in
+  (forall r h, ref_ann s r = Some h -> snd (rm_annotation s r) = OOk h)
+  /\ (forall r h, ref_res s r = Some h -> snd (rm_resource s r) = OOk h)
+  /\ (forall r h, ref_set s r = Some h -> snd (rm_dataset s r) = OOk h)
+  /\ (forall dr xr strict d ds x it, to_handle (sidx s) dr = Some d -> get_set s d = Some ds ->
+        to_handle (d_xidx ds) xr = Some x -> slot (d_data ds) x = Some it -> snd (rm_data s dr xr strict) = OOk x)
+  /\ (forall dr kr strict d ds k tok, to_handle (sidx s) dr = Some d -> get_set s d = Some ds ->
+        to_handle (d_kidx ds) kr = Some k -> slot (d_keys ds) k = Some tok -> snd (rm_key s dr kr strict) = OOk k).
+Proof.
+  intros ops s. destruct (reachable_Good ops) as (HI & Hwf & _).
+  split; [intros r h; apply (rm_annotation_ok noex s r h HI Hwf)|].
+  split; [exact (rm_resource_ok s)|]. split; [exact (rm_dataset_ok s)|]. split; [exact (rm_data_ok s)|exact (rm_key_ok s)].
 Qed.
 
 (* the closure of the specification is reachability along "targets an annotation" edges *)
